@@ -702,6 +702,8 @@ theorem inboundData_nn {ex : Option Nat} (a : Agent) (now : Nat) (l : Cand) (src
   rw [inboundData_eq]
   split
   · exact idFind_nn a now l src
+  split
+  · exact idFind_nn a now l src
   · exact (idFind_nn a now l src).trans (idCount_nn _ len)
 
 theorem doRestart_nn {ex : Option Nat} (a : Agent) (now : Nat) (u p : String) :
